@@ -35,7 +35,6 @@ def constants():
     rows = [
         ("DUST_RELAY_FEE_RATE", fee.DUST_RELAY_FEE_RATE.sats_per_kvbyte, "fee.DUST_RELAY_FEE_RATE.sats_per_kvbyte"),
         ("SIG_SIZE", psbt_size.SIG_SIZE, "psbt_size.SIG_SIZE: DER signature + sighash byte, worst case"),
-        ("SCHNORR_SIG_SIZE", psbt_size.SCHNORR_SIG_SIZE, "psbt_size.SCHNORR_SIG_SIZE"),
         ("COMPRESSED_PUB_KEY_SIZE", psbt_size.COMPRESSED_PUB_KEY_SIZE, "psbt_size.COMPRESSED_PUB_KEY_SIZE"),
         ("OP_INT_OFFSET", psbt_size._OP_INT_OFFSET, "psbt_size._OP_INT_OFFSET"),
         ("SATOSHI_PER_BITCOIN", amount._SATOSHI_PER_BITCOIN, "amount._SATOSHI_PER_BITCOIN"),
@@ -43,7 +42,13 @@ def constants():
         ("MAX_BITCOIN", int(amount._MAX_BITCOIN), "amount._MAX_BITCOIN"),
         ("MAX_SATOSHI_VALUE", amount._MAX_SATOSHI, "amount._MAX_SATOSHI as loaded"),
     ]
-    return "".join(f"/-- `{doc}` -/\ndef {n} : Int := {v}\n" for n, v, doc in rows)
+    from btclib.script import sig_ops
+    txt = "".join(f"/-- `{doc}` -/\ndef {n} : Int := {v}\n" for n, v, doc in rows)
+    txt += "/-- `sig_ops._CHECKSIG`, `sig_ops._CHECKMULTISIG` (op code bytes), `limits.MAX_PUBKEYS_PER_MULTISIG` -/\n"
+    txt += f"def SIGOPS_CHECKSIG : List Nat := {sorted(sig_ops._CHECKSIG)}\n"
+    txt += f"def SIGOPS_CHECKMULTISIG : List Nat := {sorted(sig_ops._CHECKMULTISIG)}\n"
+    txt += f"def SIGOPS_MULTISIG_COST : Nat := {sig_ops.MAX_PUBKEYS_PER_MULTISIG}\n"
+    return txt
 
 
 # ----------------------------------------------------------------- argument generators
@@ -171,6 +176,10 @@ def functions():
                  call=lambda s, t: _prop(block_mod.Block, "weight")(_Sized(s, t)), gen=_gen_sizes),
         FuncSpec(block_mod, "Block.vsize", "int", params=[], lean="block_vsize", subst=w,
                  call=lambda x: _prop(block_mod.Block, "vsize")(types.SimpleNamespace(weight=x)), gen=_gen_weight),
+        FuncSpec(psbt_size, "_taproot_sig_size", "int", params=[],
+                 subst={"psbt_in.sig_hash_type": ("sig_hash_type", "int")},
+                 call=lambda v: psbt_size._taproot_sig_size(types.SimpleNamespace(sig_hash_type=v)),
+                 gen=lambda rng: (rng.choice([0, 0, 1, 2, 3, 0x81, 0x82, 0x83, 255, _nat(rng)]),)),
         FuncSpec(psbt_mod, "Psbt.vsize_estimate", "int", params=[], lean="psbt_vsize_estimate",
                  subst={"self.weight_estimate(sizer)": ("weight", "int")},
                  call=lambda x: psbt_mod.Psbt.vsize_estimate(
